@@ -1,4 +1,5 @@
 import Proofs.LiveWireReach
+import Proofs.LiveWireWeave
 import Proofs.LiveWireExample
 /-!
 # C04 — live MIDI byte streams are decoded into exactly the messages sent
@@ -89,6 +90,23 @@ theorem decode_wire_any_chunking (c : Cfg) (hc : AllOn c) (items : List Item) (h
     (listen c toks).map (·.1) = (expected items).map (fun m => some m.1) := by
   rw [decode_chunking_same_bytes c toks (wireToks items) hb, decode_wire c hc items h]
   simp [delivered]
+
+/-- **All partitions, time stamps included.** Whatever token stream `toks` carries the bytes of a legal wire
+    sequence — however these bytes are cut into `EachMessage` calls and whatever the deltas — `toks` is itself
+    the token stream of a legal wire sequence `items'` (the chunk borders lie in its gaps and between its items),
+    so `decode_wire` and the time stamp theorems apply to it as it stands; and `items'` carries the same
+    messages in the same order as `items`. -/
+theorem decode_wire_every_chunking (c : Cfg) (hc : AllOn c) (items : List Item) (h : WF c.bufSize items)
+    (toks : List Tok) (hb : bytesOf toks = wire items) :
+    ∃ items', wireToks items' = toks ∧ WF c.bufSize items' ∧ listen c toks = delivered (expected items') ∧
+      (expected items').map (·.1) = (expected items).map (·.1) := by
+  obtain ⟨items', e, hw⟩ := weave_items c.bufSize items 0 toks h hb
+  refine ⟨items', e, hw, ?_, ?_⟩
+  · rw [← e]; exact decode_wire c hc items' hw
+  · have h1 := decode_wire_any_chunking c hc items h toks hb
+    rw [← e, decode_wire c hc items' hw] at h1
+    have h2 := congrArg (List.map (fun o : Option Bytes => o.getD [])) h1
+    simpa [delivered, List.map_map, Function.comp_def] using h2
 
 /-- Per-message lemma: the decoder is between messages (`Clean`: mode clean, running status `run`, first data
     byte not pending) with clock `t`; any legal item — a message with or without status byte, a real-time
